@@ -12,7 +12,7 @@ from vlib import core, opskit
 RULE = ("random populations (1-5 qubits, 1-4 layers, 2-8 individuals; duplicates, relatives sharing layer prefixes, hand-built parameterless last layers, "
         "1-qubit populations, incoming stale/duplicate representative lists) x random operator sequences of length 1-12 (each selection directly preceded by a speciation) "
         "x probabilities {0, 1/2, 1, random} x roulette/tournament x 1-4 workers with forced completion orders; plus every completion permutation of 4 tasks; plus selections "
-        "violating the documented precondition; distinct = distinct spec; non-trivial = at least 2 individuals and one executed operator")
+        "violating the documented precondition; plus populations with members that are structurally different but hash-equal (merge of equal representatives); plus selections at the boundaries of the roulette arithmetic (fake evaluator modes: best value exactly 0.0 / -0.0, all values equal, negative values; zero penalties; no controlled gates); plus mutation directly after speciation; distinct = distinct spec; non-trivial = at least 2 individuals and one executed operator")
 
 
 def specs_for(ctx):
@@ -22,6 +22,9 @@ def specs_for(ctx):
         specs.append(json.loads(f.read_text()))
     specs += opskit.all_orders_specs(ctx.rng)
     specs += opskit.precondition_specs(ctx.rng, ctx.n(6, 60))
+    specs += opskit.merge_specs(ctx.rng, ctx.n(12, 120))
+    specs += opskit.boundary_selection_specs(ctx.rng, ctx.n(40, 400))
+    specs += opskit.mutation_after_speciation_specs(ctx.rng, ctx.n(15, 150))
     for _ in range(ctx.n(150, 3000)):
         specs.append(opskit.random_spec(ctx.rng))
     return specs
